@@ -24,7 +24,9 @@ META = dict(
          "Unwrapped hooks are driven through multi-block histories of their inputs (band price rounds for window sizes 1-4: positive runs, zero-rate outages shorter and longer than the "
          "accepted gap, rebuilds, silent rounds, short answers); optional records are present/absent in governance's set-up orders (lookup table / auction mapping before any fee, second "
          "asset later, missing white-listing / auction parameters, kill switch); a failing step of another stage of a hook (surplus/debt starter) must leave every listed unit's facets "
-         "as in the run where that step is masked.",
+         "as in the run where that step is masked. Auction starters (V1 surplus/debt activators, V2 starter) are judged by facets per auction mapping "
+         "(collector debited, auction record, mapping flag) on states with and without auction parameters; height-gated branches run at their gate heights with the fault armed "
+         "(swap-fee conversion every 150 blocks: never-traded pair with a pool and a coin in its fee collector, in either or both of two apps).",
     note="Trusted: TLC/Json module, sim.Digest over all DeFi stores + bank, the observation of unit failures through the wrapper's error log line, the item masks "
          "(borrow flagged liquidated / vault collateral inflated) used only for reference runs. Faults are injected at gas-metered store accesses only.",
     design_ref="4 C15",
